@@ -3,6 +3,7 @@ import FranzVerif.Spec.C17
 /-! C17 — helper lemmas (kernel-only: `BitVec.toNat` + `omega`). -/
 namespace Proof.C17
 open Model.C17
+open Spec.C17 hiding Bytes
 
 /-! ## Nat bridges -/
 theorem and127 (x : Nat) : x &&& 127 = x % 128 := by
@@ -153,5 +154,310 @@ theorem uvarint_exact (inp : Bytes) :
     · simp [uvarint, idx?, fin_iff, Spec.C17.decU, Spec.C17.leb, nl1, nl2, nl3, nl4, nl5, h0, h1, h2, h3, hlt, BitVec.le_def, hl]
       rw [if_neg (by omega)]; simp
     · simp [uvarint, idx?, fin_iff, Spec.C17.decU, Spec.C17.leb, nl1, nl2, nl3, nl4, nl5, h0, h1, h2, h3, hlt, BitVec.le_def, hl]
+
+
+/-! ## Spec-level LEB128 facts, the length table, encoder exactness (case script generated per length) -/
+theorem encU_lt {n : Nat} (h : n < 128) : encU n = [byte n] := by rw [encU]; simp [h]
+theorem encU_ge {n : Nat} (h : ¬ n < 128) : encU n = byte (n % 128 + 128) :: encU (n / 128) := by
+  rw [encU]; simp [h]
+theorem lenU_lt {n : Nat} (h : n < 128) : lenU n = 1 := by rw [lenU]; simp [h]
+theorem lenU_ge {n : Nat} (h : ¬ n < 128) : lenU n = 1 + lenU (n / 128) := by rw [lenU]; simp [h]
+
+theorem byte_toNat {n : Nat} (h : n < 256) : (byte n).toNat = n := by
+  simp [byte, BitVec.toNat_ofNat]; omega
+
+theorem encU_length (n : Nat) : (encU n).length = lenU n := by
+  induction n using Nat.strongRecOn with
+  | _ n ih =>
+    by_cases h : n < 128
+    · simp [encU_lt h, lenU_lt h]
+    · rw [encU_ge h, lenU_ge h, List.length_cons, ih (n / 128) (by omega)]; omega
+
+/-- reading back an encoding: the value and exactly its bytes, whatever follows -/
+theorem leb_encU (n : Nat) (r : Bytes) : leb (encU n ++ r) = some (n, lenU n) := by
+  induction n using Nat.strongRecOn with
+  | _ n ih =>
+    by_cases h : n < 128
+    · simp [encU_lt h, lenU_lt h, leb, byte_toNat (by omega : n < 256), h]
+    · rw [encU_ge h, lenU_ge h, List.cons_append]
+      generalize hbd : byte (n % 128 + 128) = b
+      have hb : b.toNat = n % 128 + 128 := by rw [← hbd]; exact byte_toNat (by omega)
+      have hb' : ¬ b.toNat < 128 := by omega
+      rw [leb, ih (n / 128) (by omega)]
+      simp only [hb', if_false, hb]
+      refine congrArg some (Prod.ext ?_ ?_) <;> simp <;> omega
+
+theorem lenU_le (k : Nat) : ∀ n, n < 128 ^ k → 1 ≤ k → lenU n ≤ k := by
+  induction k with
+  | zero => intro n _ h; omega
+  | succ k ih =>
+    intro n hn _
+    by_cases h : n < 128
+    · rw [lenU_lt h]; omega
+    · rw [lenU_ge h]
+      have hk : 1 ≤ k := by
+        rcases k with _ | k
+        · simp at hn; omega
+        · omega
+      have : n / 128 < 128 ^ k := by
+        rw [Nat.pow_succ] at hn
+        exact Nat.div_lt_of_lt_mul (by rw [Nat.mul_comm]; exact hn)
+      have := ih (n / 128) this hk
+      omega
+
+/-- Spec-level round trip: decoding `encU n` followed by anything gives `n` and its length -/
+theorem decU_encU (bits maxB n : Nat) (r : Bytes) (hn : n < 2 ^ bits) (hl : lenU n ≤ maxB) :
+    decU bits maxB (encU n ++ r) = (n, (lenU n : Int)) := by
+  unfold decU
+  have hlen := encU_length n
+  have : (encU n ++ r).take maxB = encU n ++ r.take (maxB - lenU n) := by
+    rw [List.take_append, hlen, List.take_of_length_le (by omega)]
+  rw [this, leb_encU]
+  simp [hn]
+theorem bitsLen_div128 (n : Nat) (h : 128 ≤ n) : bitsLen (n / 128) + 7 = bitsLen n := by
+  have hn : n ≠ 0 := by omega
+  have hm : n / 128 ≠ 0 := by omega
+  simp only [bitsLen, hn, hm, if_false]
+  have ⟨h1, h2⟩ := (Nat.log2_eq_iff hm).1 rfl
+  have e7 : 2 ^ ((n / 128).log2 + 7) = 2 ^ (n / 128).log2 * 128 := by rw [Nat.pow_add]
+  have e8 : 2 ^ ((n / 128).log2 + 7 + 1) = 2 ^ (n / 128).log2 * 256 := by rw [Nat.add_assoc, Nat.pow_add]
+  have e1 : 2 ^ ((n / 128).log2 + 1) = 2 ^ (n / 128).log2 * 2 := by rw [Nat.pow_add]
+  have := (Nat.log2_eq_iff hn (k := (n / 128).log2 + 7)).2 ⟨by omega, by omega⟩
+  omega
+
+theorem bitsLen_lt128 (n : Nat) (h : n < 128) : bitsLen n ≤ 7 := by
+  unfold bitsLen
+  split
+  · omega
+  · rename_i hn
+    have := (Nat.log2_lt hn (k := 7)).2 (by simpa using h)
+    omega
+
+theorem bitsLen_le (n k : Nat) (h : n < 2 ^ k) : bitsLen n ≤ k := by
+  unfold bitsLen
+  split
+  · omega
+  · rename_i hn
+    have := (Nat.log2_lt hn (k := k)).2 h
+    omega
+
+/-- the length function through the regenerated table is the LEB128 length -/
+theorem lens_bitsLen (tbl : ∀ L : Fin 65, lensAt L.val = max 1 ((L.val + 6) / 7)) (n : Nat) (h : n < 2 ^ 64) :
+    lensAt (bitsLen n) = lenU n := by
+  have hb := bitsLen_le n 64 h
+  rw [tbl ⟨bitsLen n, by omega⟩]
+  show max 1 ((bitsLen n + 6) / 7) = lenU n
+  clear hb h
+  induction n using Nat.strongRecOn with
+  | _ n ih =>
+    by_cases c : n < 128
+    · have := bitsLen_lt128 n c
+      rw [lenU]; simp only [c, if_true]; omega
+    · have := bitsLen_div128 n (by omega)
+      have : 1 ≤ bitsLen (n / 128) := by
+        unfold bitsLen; split <;> omega
+      have := ih (n / 128) (by omega)
+      rw [lenU]; simp only [c, if_false]; omega
+theorem byte_mod (a : Nat) : byte (a % 256) = byte a := by
+  apply BitVec.eq_of_toNat_eq; simp [byte]
+
+theorem setw8_eq {w : Nat} (u : BitVec w) : u.setWidth 8 = byte u.toNat := by
+  apply BitVec.eq_of_toNat_eq; simp [byte]
+
+theorem cont_gen (w : Nat) (hw : 8 ≤ w) (u : BitVec w) (k : Nat) :
+    ((((u >>> k) &&& 0x7f#w) ||| 0x80#w).setWidth 8) = byte (u.toNat / 2 ^ k % 128 + 128) := by
+  have h256 : (2:Nat) ^ 8 ≤ 2 ^ w := Nat.pow_le_pow_right (by decide) hw
+  simp only [Nat.reducePow] at h256
+  apply BitVec.eq_of_toNat_eq
+  simp only [byte, BitVec.toNat_setWidth, BitVec.toNat_or, BitVec.toNat_and, BitVec.toNat_ushiftRight,
+    BitVec.toNat_ofNat, Nat.shiftRight_eq_div_pow]
+  rw [Nat.mod_eq_of_lt (by omega : 127 < 2 ^ w), Nat.mod_eq_of_lt (by omega : 128 < 2 ^ w), and127,
+    or128 _ (Nat.mod_lt _ (by decide))]
+
+theorem cont32_eq (u : BitVec 32) (k : Nat) (_ : k < 32) : cont32 u k = byte (u.toNat / 2 ^ k % 128 + 128) :=
+  cont_gen 32 (by decide) u k
+theorem cont64_eq (u : BitVec 64) (k : Nat) (_ : k < 64) : cont64 u k = byte (u.toNat / 2 ^ k % 128 + 128) :=
+  cont_gen 64 (by decide) u k
+theorem cont32_0_eq (u : BitVec 32) : cont32_0 u = byte (u.toNat % 128 + 128) := by
+  have := cont_gen 32 (by decide) u 0
+  simpa [cont32_0] using this
+theorem cont64_0_eq (u : BitVec 64) : cont64_0 u = byte (u.toNat % 128 + 128) := by
+  have := cont_gen 64 (by decide) u 0
+  simpa [cont64_0] using this
+theorem last32_eq (u : BitVec 32) (k : Nat) : last32 u k = byte (u.toNat / 2 ^ k) := by
+  apply BitVec.eq_of_toNat_eq; simp [last32, byte, Nat.shiftRight_eq_div_pow]
+theorem last64_eq (u : BitVec 64) (k : Nat) : last64 u k = byte (u.toNat / 2 ^ k) := by
+  apply BitVec.eq_of_toNat_eq; simp [last64, byte, Nat.shiftRight_eq_div_pow]
+
+theorem appendUvarint_exact (tbl : ∀ L : Fin 65, lensAt L.val = max 1 ((L.val + 6) / 7)) (dst : Bytes) (u : BitVec 32) :
+    appendUvarint dst u = dst ++ encU u.toNat ∧ uvarintLen u = lenU u.toNat := by
+  have hu := u.isLt
+  have hl : uvarintLen u = lenU u.toNat := lens_bitsLen tbl u.toNat (by omega)
+  refine ⟨?_, hl⟩
+  unfold appendUvarint
+  rw [hl]
+  by_cases c1 : u.toNat < 128
+  · -- 1 byte(s)
+    have e : lenU u.toNat = 1 := by rw [lenU_lt (by omega)]
+    rw [e, encU_lt (by omega)]
+    simp only [List.append_cancel_left_eq, List.cons.injEq, and_true]
+    exact setw8_eq u
+  by_cases c2 : u.toNat < 16384
+  · -- 2 byte(s)
+    have e : lenU u.toNat = 2 := by rw [lenU_ge (by omega), lenU_lt (by omega)]
+    rw [e, encU_ge (by omega), encU_lt (by omega)]
+    simp only [List.append_cancel_left_eq, List.cons.injEq, and_true]
+    refine ⟨?_, ?_⟩
+    · rw [cont32_0_eq u]; all_goals (first | rfl | (congr 1 <;> omega))
+    · rw [last32_eq u 7]; all_goals (first | rfl | (congr 1 <;> omega))
+  by_cases c3 : u.toNat < 2097152
+  · -- 3 byte(s)
+    have e : lenU u.toNat = 3 := by rw [lenU_ge (by omega), lenU_ge (by omega), lenU_lt (by omega)]
+    rw [e, encU_ge (by omega), encU_ge (by omega), encU_lt (by omega)]
+    simp only [List.append_cancel_left_eq, List.cons.injEq, and_true]
+    refine ⟨?_, ?_, ?_⟩
+    · rw [cont32_0_eq u]; all_goals (first | rfl | (congr 1 <;> omega))
+    · rw [cont32_eq u 7 (by decide)]; all_goals (first | rfl | (congr 1 <;> omega))
+    · rw [last32_eq u 14]; all_goals (first | rfl | (congr 1 <;> omega))
+  by_cases c4 : u.toNat < 268435456
+  · -- 4 byte(s)
+    have e : lenU u.toNat = 4 := by rw [lenU_ge (by omega), lenU_ge (by omega), lenU_ge (by omega), lenU_lt (by omega)]
+    rw [e, encU_ge (by omega), encU_ge (by omega), encU_ge (by omega), encU_lt (by omega)]
+    simp only [List.append_cancel_left_eq, List.cons.injEq, and_true]
+    refine ⟨?_, ?_, ?_, ?_⟩
+    · rw [cont32_0_eq u]; all_goals (first | rfl | (congr 1 <;> omega))
+    · rw [cont32_eq u 7 (by decide)]; all_goals (first | rfl | (congr 1 <;> omega))
+    · rw [cont32_eq u 14 (by decide)]; all_goals (first | rfl | (congr 1 <;> omega))
+    · rw [last32_eq u 21]; all_goals (first | rfl | (congr 1 <;> omega))
+  -- 5 bytes
+  have e : lenU u.toNat = 5 := by rw [lenU_ge (by omega), lenU_ge (by omega), lenU_ge (by omega), lenU_ge (by omega), lenU_lt (by omega)]
+  rw [e, encU_ge (by omega), encU_ge (by omega), encU_ge (by omega), encU_ge (by omega), encU_lt (by omega)]
+  simp only [List.append_cancel_left_eq, List.cons.injEq, and_true]
+  refine ⟨?_, ?_, ?_, ?_, ?_⟩
+  · rw [cont32_0_eq u]; all_goals (first | rfl | (congr 1 <;> omega))
+  · rw [cont32_eq u 7 (by decide)]; all_goals (first | rfl | (congr 1 <;> omega))
+  · rw [cont32_eq u 14 (by decide)]; all_goals (first | rfl | (congr 1 <;> omega))
+  · rw [cont32_eq u 21 (by decide)]; all_goals (first | rfl | (congr 1 <;> omega))
+  · rw [last32_eq u 28]; all_goals (first | rfl | (congr 1 <;> omega))
+theorem appendUvarlong_exact (tbl : ∀ L : Fin 65, lensAt L.val = max 1 ((L.val + 6) / 7)) (dst : Bytes) (u : BitVec 64) :
+    appendUvarlong dst u = dst ++ encU u.toNat ∧ uvarlongLen u = lenU u.toNat := by
+  have hu := u.isLt
+  have hl : uvarlongLen u = lenU u.toNat := lens_bitsLen tbl u.toNat (by omega)
+  refine ⟨?_, hl⟩
+  unfold appendUvarlong
+  rw [hl]
+  by_cases c1 : u.toNat < 128
+  · -- 1 byte(s)
+    have e : lenU u.toNat = 1 := by rw [lenU_lt (by omega)]
+    rw [e, encU_lt (by omega)]
+    simp only [List.append_cancel_left_eq, List.cons.injEq, and_true]
+    exact setw8_eq u
+  by_cases c2 : u.toNat < 16384
+  · -- 2 byte(s)
+    have e : lenU u.toNat = 2 := by rw [lenU_ge (by omega), lenU_lt (by omega)]
+    rw [e, encU_ge (by omega), encU_lt (by omega)]
+    simp only [List.append_cancel_left_eq, List.cons.injEq, and_true]
+    refine ⟨?_, ?_⟩
+    · rw [cont64_0_eq u]; all_goals (first | rfl | (congr 1 <;> omega))
+    · rw [last64_eq u 7]; all_goals (first | rfl | (congr 1 <;> omega))
+  by_cases c3 : u.toNat < 2097152
+  · -- 3 byte(s)
+    have e : lenU u.toNat = 3 := by rw [lenU_ge (by omega), lenU_ge (by omega), lenU_lt (by omega)]
+    rw [e, encU_ge (by omega), encU_ge (by omega), encU_lt (by omega)]
+    simp only [List.append_cancel_left_eq, List.cons.injEq, and_true]
+    refine ⟨?_, ?_, ?_⟩
+    · rw [cont64_0_eq u]; all_goals (first | rfl | (congr 1 <;> omega))
+    · rw [cont64_eq u 7 (by decide)]; all_goals (first | rfl | (congr 1 <;> omega))
+    · rw [last64_eq u 14]; all_goals (first | rfl | (congr 1 <;> omega))
+  by_cases c4 : u.toNat < 268435456
+  · -- 4 byte(s)
+    have e : lenU u.toNat = 4 := by rw [lenU_ge (by omega), lenU_ge (by omega), lenU_ge (by omega), lenU_lt (by omega)]
+    rw [e, encU_ge (by omega), encU_ge (by omega), encU_ge (by omega), encU_lt (by omega)]
+    simp only [List.append_cancel_left_eq, List.cons.injEq, and_true]
+    refine ⟨?_, ?_, ?_, ?_⟩
+    · rw [cont64_0_eq u]; all_goals (first | rfl | (congr 1 <;> omega))
+    · rw [cont64_eq u 7 (by decide)]; all_goals (first | rfl | (congr 1 <;> omega))
+    · rw [cont64_eq u 14 (by decide)]; all_goals (first | rfl | (congr 1 <;> omega))
+    · rw [last64_eq u 21]; all_goals (first | rfl | (congr 1 <;> omega))
+  by_cases c5 : u.toNat < 34359738368
+  · -- 5 byte(s)
+    have e : lenU u.toNat = 5 := by rw [lenU_ge (by omega), lenU_ge (by omega), lenU_ge (by omega), lenU_ge (by omega), lenU_lt (by omega)]
+    rw [e, encU_ge (by omega), encU_ge (by omega), encU_ge (by omega), encU_ge (by omega), encU_lt (by omega)]
+    simp only [List.append_cancel_left_eq, List.cons.injEq, and_true]
+    refine ⟨?_, ?_, ?_, ?_, ?_⟩
+    · rw [cont64_0_eq u]; all_goals (first | rfl | (congr 1 <;> omega))
+    · rw [cont64_eq u 7 (by decide)]; all_goals (first | rfl | (congr 1 <;> omega))
+    · rw [cont64_eq u 14 (by decide)]; all_goals (first | rfl | (congr 1 <;> omega))
+    · rw [cont64_eq u 21 (by decide)]; all_goals (first | rfl | (congr 1 <;> omega))
+    · rw [last64_eq u 28]; all_goals (first | rfl | (congr 1 <;> omega))
+  by_cases c6 : u.toNat < 4398046511104
+  · -- 6 byte(s)
+    have e : lenU u.toNat = 6 := by rw [lenU_ge (by omega), lenU_ge (by omega), lenU_ge (by omega), lenU_ge (by omega), lenU_ge (by omega), lenU_lt (by omega)]
+    rw [e, encU_ge (by omega), encU_ge (by omega), encU_ge (by omega), encU_ge (by omega), encU_ge (by omega), encU_lt (by omega)]
+    simp only [List.append_cancel_left_eq, List.cons.injEq, and_true]
+    refine ⟨?_, ?_, ?_, ?_, ?_, ?_⟩
+    · rw [cont64_0_eq u]; all_goals (first | rfl | (congr 1 <;> omega))
+    · rw [cont64_eq u 7 (by decide)]; all_goals (first | rfl | (congr 1 <;> omega))
+    · rw [cont64_eq u 14 (by decide)]; all_goals (first | rfl | (congr 1 <;> omega))
+    · rw [cont64_eq u 21 (by decide)]; all_goals (first | rfl | (congr 1 <;> omega))
+    · rw [cont64_eq u 28 (by decide)]; all_goals (first | rfl | (congr 1 <;> omega))
+    · rw [last64_eq u 35]; all_goals (first | rfl | (congr 1 <;> omega))
+  by_cases c7 : u.toNat < 562949953421312
+  · -- 7 byte(s)
+    have e : lenU u.toNat = 7 := by rw [lenU_ge (by omega), lenU_ge (by omega), lenU_ge (by omega), lenU_ge (by omega), lenU_ge (by omega), lenU_ge (by omega), lenU_lt (by omega)]
+    rw [e, encU_ge (by omega), encU_ge (by omega), encU_ge (by omega), encU_ge (by omega), encU_ge (by omega), encU_ge (by omega), encU_lt (by omega)]
+    simp only [List.append_cancel_left_eq, List.cons.injEq, and_true]
+    refine ⟨?_, ?_, ?_, ?_, ?_, ?_, ?_⟩
+    · rw [cont64_0_eq u]; all_goals (first | rfl | (congr 1 <;> omega))
+    · rw [cont64_eq u 7 (by decide)]; all_goals (first | rfl | (congr 1 <;> omega))
+    · rw [cont64_eq u 14 (by decide)]; all_goals (first | rfl | (congr 1 <;> omega))
+    · rw [cont64_eq u 21 (by decide)]; all_goals (first | rfl | (congr 1 <;> omega))
+    · rw [cont64_eq u 28 (by decide)]; all_goals (first | rfl | (congr 1 <;> omega))
+    · rw [cont64_eq u 35 (by decide)]; all_goals (first | rfl | (congr 1 <;> omega))
+    · rw [last64_eq u 42]; all_goals (first | rfl | (congr 1 <;> omega))
+  by_cases c8 : u.toNat < 72057594037927936
+  · -- 8 byte(s)
+    have e : lenU u.toNat = 8 := by rw [lenU_ge (by omega), lenU_ge (by omega), lenU_ge (by omega), lenU_ge (by omega), lenU_ge (by omega), lenU_ge (by omega), lenU_ge (by omega), lenU_lt (by omega)]
+    rw [e, encU_ge (by omega), encU_ge (by omega), encU_ge (by omega), encU_ge (by omega), encU_ge (by omega), encU_ge (by omega), encU_ge (by omega), encU_lt (by omega)]
+    simp only [List.append_cancel_left_eq, List.cons.injEq, and_true]
+    refine ⟨?_, ?_, ?_, ?_, ?_, ?_, ?_, ?_⟩
+    · rw [cont64_0_eq u]; all_goals (first | rfl | (congr 1 <;> omega))
+    · rw [cont64_eq u 7 (by decide)]; all_goals (first | rfl | (congr 1 <;> omega))
+    · rw [cont64_eq u 14 (by decide)]; all_goals (first | rfl | (congr 1 <;> omega))
+    · rw [cont64_eq u 21 (by decide)]; all_goals (first | rfl | (congr 1 <;> omega))
+    · rw [cont64_eq u 28 (by decide)]; all_goals (first | rfl | (congr 1 <;> omega))
+    · rw [cont64_eq u 35 (by decide)]; all_goals (first | rfl | (congr 1 <;> omega))
+    · rw [cont64_eq u 42 (by decide)]; all_goals (first | rfl | (congr 1 <;> omega))
+    · rw [last64_eq u 49]; all_goals (first | rfl | (congr 1 <;> omega))
+  by_cases c9 : u.toNat < 9223372036854775808
+  · -- 9 byte(s)
+    have e : lenU u.toNat = 9 := by rw [lenU_ge (by omega), lenU_ge (by omega), lenU_ge (by omega), lenU_ge (by omega), lenU_ge (by omega), lenU_ge (by omega), lenU_ge (by omega), lenU_ge (by omega), lenU_lt (by omega)]
+    rw [e, encU_ge (by omega), encU_ge (by omega), encU_ge (by omega), encU_ge (by omega), encU_ge (by omega), encU_ge (by omega), encU_ge (by omega), encU_ge (by omega), encU_lt (by omega)]
+    simp only [List.append_cancel_left_eq, List.cons.injEq, and_true]
+    refine ⟨?_, ?_, ?_, ?_, ?_, ?_, ?_, ?_, ?_⟩
+    · rw [cont64_0_eq u]; all_goals (first | rfl | (congr 1 <;> omega))
+    · rw [cont64_eq u 7 (by decide)]; all_goals (first | rfl | (congr 1 <;> omega))
+    · rw [cont64_eq u 14 (by decide)]; all_goals (first | rfl | (congr 1 <;> omega))
+    · rw [cont64_eq u 21 (by decide)]; all_goals (first | rfl | (congr 1 <;> omega))
+    · rw [cont64_eq u 28 (by decide)]; all_goals (first | rfl | (congr 1 <;> omega))
+    · rw [cont64_eq u 35 (by decide)]; all_goals (first | rfl | (congr 1 <;> omega))
+    · rw [cont64_eq u 42 (by decide)]; all_goals (first | rfl | (congr 1 <;> omega))
+    · rw [cont64_eq u 49 (by decide)]; all_goals (first | rfl | (congr 1 <;> omega))
+    · rw [last64_eq u 56]; all_goals (first | rfl | (congr 1 <;> omega))
+  -- 10 bytes
+  have e : lenU u.toNat = 10 := by rw [lenU_ge (by omega), lenU_ge (by omega), lenU_ge (by omega), lenU_ge (by omega), lenU_ge (by omega), lenU_ge (by omega), lenU_ge (by omega), lenU_ge (by omega), lenU_ge (by omega), lenU_lt (by omega)]
+  rw [e, encU_ge (by omega), encU_ge (by omega), encU_ge (by omega), encU_ge (by omega), encU_ge (by omega), encU_ge (by omega), encU_ge (by omega), encU_ge (by omega), encU_ge (by omega), encU_lt (by omega)]
+  simp only [List.append_cancel_left_eq, List.cons.injEq, and_true]
+  refine ⟨?_, ?_, ?_, ?_, ?_, ?_, ?_, ?_, ?_, ?_⟩
+  · rw [cont64_0_eq u]; all_goals (first | rfl | (congr 1 <;> omega))
+  · rw [cont64_eq u 7 (by decide)]; all_goals (first | rfl | (congr 1 <;> omega))
+  · rw [cont64_eq u 14 (by decide)]; all_goals (first | rfl | (congr 1 <;> omega))
+  · rw [cont64_eq u 21 (by decide)]; all_goals (first | rfl | (congr 1 <;> omega))
+  · rw [cont64_eq u 28 (by decide)]; all_goals (first | rfl | (congr 1 <;> omega))
+  · rw [cont64_eq u 35 (by decide)]; all_goals (first | rfl | (congr 1 <;> omega))
+  · rw [cont64_eq u 42 (by decide)]; all_goals (first | rfl | (congr 1 <;> omega))
+  · rw [cont64_eq u 49 (by decide)]; all_goals (first | rfl | (congr 1 <;> omega))
+  · rw [cont64_eq u 56 (by decide)]; all_goals (first | rfl | (congr 1 <;> omega))
+  · rw [last64_eq u 63]; all_goals (first | rfl | (congr 1 <;> omega))
 
 end Proof.C17
